@@ -398,8 +398,10 @@ func (stub *stub) Start(ctx context.Context) (retErr error) {
 		return fmt.Errorf("failed to multiplex ttrpc client connection: %w", err)
 	}
 
+	closedC := make(chan struct{})
 	clientOpts := []ttrpc.ClientOpts{
 		ttrpc.WithOnClose(func() {
+			close(closedC)
 			stub.connClosed()
 		}),
 	}
@@ -426,13 +428,25 @@ func (stub *stub) Start(ctx context.Context) (retErr error) {
 
 	stub.runtime = api.NewRuntimeClient(rpcc)
 
+	timeout := time.NewTimer(stub.registrationTimeout)
+	defer timeout.Stop()
+
 	if err = stub.register(ctx); err != nil {
 		stub.close()
 		return err
 	}
 
 	verifhook.Point("stub.start.waitcfg")
-	if err = <-stub.cfgErrC; err != nil {
+	select {
+	case err = <-stub.cfgErrC:
+	case <-closedC:
+		err = errors.New("connection to NRI/Runtime closed before the plugin got configured")
+	case <-timeout.C:
+		err = errors.New("timed out waiting for NRI/Runtime to configure the plugin")
+	case <-ctx.Done():
+		err = ctx.Err()
+	}
+	if err != nil {
 		return err
 	}
 
